@@ -159,13 +159,16 @@ class only_encoder:
         self.saved = {n: list(getattr(sm, n)) for n in ('PATTERN_ENCODERS', 'EAGER_ENCODERS', 'LAZY_ENCODERS',
                                                         'EAGER_ENUM_ENCODERS')}
         flat = [(n, f) for n in ('EAGER_ENCODERS', 'LAZY_ENCODERS', 'EAGER_ENUM_ENCODERS') for f in self.saved[n]]
-        name, fac = flat[self.k % len(flat)]
+        if self.k % 3 == 2:
+            # the enumerating encoders are otherwise only reached in the selector's last stage: a third of the cases
+            flat = [(n, f) for n, f in flat if n == 'EAGER_ENUM_ENCODERS'] or flat
+        name, fac = flat[(self.k // 3) % len(flat)]
         for n in self.saved:
             getattr(sm, n)[:] = [fac] if n == name else []
         self.family = name
         self.xdg = os.environ.get('XDG_CACHE_HOME')
         if self.xdg:
-            os.environ['XDG_CACHE_HOME'] = os.path.join(self.xdg, 'forced_%d' % (self.k % len(flat)))
+            os.environ['XDG_CACHE_HOME'] = os.path.join(self.xdg, 'forced_%d' % (self.k % 97))
         return self
 
     def __exit__(self, *exc):
